@@ -691,7 +691,7 @@ def check(run, replay=None):
                 iso.append((idx, "p", d))
             continue
         mode = "l" if loadable(m, limit) else "p"
-        if mode == "l" and int(m["info"]["sum"]) <= 600 and (k in ("corpus", "attached-spec", "replay") or re.search(r"(?i)\[|n[uo]|size=", d)) and nz < (260 if run.tier == "quick" else 6000):
+        if mode == "l" and int(m["info"]["sum"]) <= 600 and (k in ("corpus", "attached-spec", "replay") or re.search(r"(?i)\[|n[uo]|size=", d)) and nz < (180 if run.tier == "quick" else 2500):
             mode, nz = "lz", nz + 1     # + zero-attribute variants through XML (harness zero_variants)
         if mode == "p" and m["set"] == "rc=0" and k == "corpus" and any(" type=15 " in l for l in m["L"]):
             iso.append((idx, "l", d))     # the regression case of the MemCache-level abort
